@@ -148,3 +148,25 @@ func mentionsBound(t *Term) bool {
 	}
 	return false
 }
+
+// decodeTerms: the success flag and the value obtained by decoding buf as type t.
+func (ex *Exec) decodeTerms(st *State, buf *Term, t types.Type) (*Term, *Term) {
+	c, cs := ex.elemsComp(types.Typ[types.Uint8])
+	content := Select(ex.get(st, c, cs), SArr(buf))
+	tn := mangleType(t)
+	ok := ex.ctx.UF("dec_ok_"+tn, SBool, content, SOff(buf), SLen(buf))
+	_, seen := ex.ctx.declared["dec_"+tn]
+	val := ex.ctx.UF("dec_"+tn, ex.ctx.SortOf(t), content, SOff(buf), SLen(buf))
+	if !seen && val.Sort == SSlc {
+		// a decoded slice is a well-formed slice whose backing array is not one of the
+		// arrays the verified code allocates later (it is modelled as existing from the start)
+		cv, ov, lv := V("c!dx", content.Sort), V("o!dx", SInt), V("l!dx", SInt)
+		d := App("dec_"+tn, SSlc, cv, ov, lv)
+		al := ex.ctx.Const("Alloc!pre", ArraySort(SRef, SBool))
+		body := And(Le(IntLit(0), SOff(d)), Le(IntLit(0), SLen(d)), Le(SLen(d), SCap(d)),
+			Or(Eq(SArr(d), TNull), Select(al, SArr(d))), Implies(Eq(SArr(d), TNull), Eq(SCap(d), IntLit(0))))
+		ex.axioms = append(ex.axioms, &Term{Op: "forall", Sort: SBool, Pat: []*Term{d},
+			Bound: []Bound{{"c!dx", content.Sort}, {"o!dx", SInt}, {"l!dx", SInt}}, Args: []*Term{body}})
+	}
+	return ok, val
+}
